@@ -137,6 +137,9 @@ def unit(tier):
                 elif reason == 'TimeLimit': claims.append(('TimeLimit => the elapsed time seen exceeds the limit', z3.UGT(elapsed_seen[0], time_limit) if elapsed_seen else z3.BoolVal(False)))
                 elif reason == 'Other': claims.append(('Other => a hook failed in the last iteration', z3.Not(all_hooks_ok)))
                 claims.append(('egraph_nodes == the count the e-graph reported last', nodes == [v for k, v in log if k == 'nodes'][-1]))
+                # hooks get the runner mutably and may insert nodes: the count of the report has to be read after the last hook call
+                li = [i for i, (k, v) in enumerate(log) if k == 'nodes']; hi = [i for i, (k, v) in enumerate(log) if k.startswith('hook')]
+                if hi: claims.append(('the node count of the report is read after the last hook call', z3.BoolVal(bool(li) and li[-1] > hi[-1])))
                 for label, c in claims:
                     okv, m = ex.valid(c)
                     if not okv: bad.append((label + ' [stop reason %s after %d iterations]' % (reason, iters), p['pc'] + [z3.Not(c)]))
@@ -172,7 +175,8 @@ def unit(tier):
             prog = [v for k, v in log if k == 'progress']; hooks_ = [v for k, v in log if k == 'hook']; el = [v for k, v in log if k == 'elapsed']
             reason = {v: k.split('::')[1] for k, v in E.items() if k.startswith('StopReason::')}[sr.disc]
             claims = [('iterations <= iter_limit', z3.ULE(iters, il)), ('rounds == iterations + 1', z3.BoolVal(len(prog) == conc(iters) + 1)),
-                      ('egraph_nodes == the count the e-graph reported', nodes == [v for k, v in log if k == 'nodes'][-1])]
+                      ('egraph_nodes == the count the e-graph reported', nodes == [v for k, v in log if k == 'nodes'][-1]),
+                      ('the node count of the report is read after the last hook call', z3.BoolVal([i for i, (k, v) in enumerate(log) if k == 'nodes'][-1] > [i for i, (k, v) in enumerate(log) if k == 'hook'][-1]))]
             if reason == 'Saturated': claims += [('Saturated => the last apply_rewrites returned false', z3.Not(prog[-1])), ('Saturated => the last hook succeeded', hooks_[-1])]
             elif reason == 'Other': claims.append(('Other => the last hook failed', z3.Not(hooks_[-1])))
             elif reason == 'IterationLimit': claims.append(('IterationLimit => iterations reached the limit', z3.UGE(iters, il)))
